@@ -28,7 +28,7 @@ func zzBackOffReset(b *backoff.ExponentialBackOff) {}
 func zzErrorWithType(e *AnnounceError) string { return "error" }
 
 type zzReply struct {
-	kind     int // 0 ok, 1 tracker failure with retry-in, 2 undecodable reply
+	kind     int // 0 ok, 1 tracker failure with retry-in, 2 undecodable reply, 3 aborted by someone else (context.Canceled although this announcer cancelled nothing)
 	interval time.Duration
 	minIntvl time.Duration
 	retryIn  time.Duration
@@ -55,6 +55,10 @@ func (t *zzTracker) Announce(ctx context.Context, req tracker.AnnounceRequest) (
 		return &tracker.AnnounceResponse{Interval: r.interval, MinInterval: r.minIntvl}, nil
 	case 1:
 		return nil, &tracker.Error{FailureReason: "no", RetryIn: r.retryIn}
+	case 3:
+		// e.g. the UDP connect shared with a torrent that was just stopped
+		vrt.Assert(ctx.Err() == nil, "announce context cancelled although nobody stopped this announcer")
+		return nil, context.Canceled
 	}
 	return nil, tracker.ErrDecode
 }
@@ -72,10 +76,11 @@ func (t *zzTracker) Announce(ctx context.Context, req tracker.AnnounceRequest) (
 //vrt:cover ZZAnnouncerEvents non-positive tracker interval
 //vrt:cover ZZAnnouncerEvents completed sent
 //vrt:cover ZZAnnouncerEvents failure then retry
+//vrt:cover ZZAnnouncerEvents announce aborted by another torrent
 func ZZAnnouncerEvents() {
 	trk := &zzTracker{called: make(chan struct{}, 8)}
 	for i := 0; i < 2; i++ {
-		r := zzReply{kind: vrt.Choice("reply_kind", 3)}
+		r := zzReply{kind: vrt.Choice("reply_kind", 4)}
 		switch r.kind {
 		case 0:
 			r.interval = time.Duration(vrt.I32("interval_s")) * time.Second
@@ -125,6 +130,7 @@ func ZZAnnouncerEvents() {
 				vrt.Assert(d >= 2500*time.Millisecond, "retry armed sooner than the back-off")
 			}
 		default:
+			vrt.Cover(r.kind == 3, "announce aborted by another torrent")
 			vrt.Assert(d >= 2500*time.Millisecond, "retry armed sooner than the back-off")
 		}
 		if round == 0 {
@@ -151,5 +157,39 @@ func ZZAnnouncerEvents() {
 		vrt.Assert(completed == 0, "'completed' sent although the download did not finish during this run")
 	}
 	vrt.Assert(a.HasAnnounced == (accepted > 0), "HasAnnounced differs from 'the tracker accepted an announce'")
+	a.Close()
+}
+
+// ZZAnnouncerRetry: three announces in a row end without a reply, each in an
+// arbitrary way (tracker failure without retry-in, undecodable reply, or an
+// abort the announcer did not ask for - context.Canceled, bare or wrapped, from
+// a connection shared with a torrent that was stopped): after each one the
+// announcer leaves the 'contacting' state, arms a retry no sooner than the
+// back-off, and when that timer fires announces again.
+//
+//vrt:cover ZZAnnouncerRetry announce aborted by another torrent
+func ZZAnnouncerRetry() {
+	trk := &zzTracker{called: make(chan struct{}, 8)}
+	for i := 0; i < 3; i++ {
+		trk.replies = append(trk.replies, zzReply{kind: 1 + vrt.Choice("failure_kind", 3)})
+	}
+	completedC := make(chan struct{})
+	newPeers := make(chan []*net.TCPAddr, 8)
+	a := NewPeriodicalAnnouncer(trk, 50, time.Minute, func() tracker.Torrent { return tracker.Torrent{} }, completedC, newPeers, logger.New("zz"))
+	go a.Run()
+	for round := 0; round < 3; round++ {
+		<-trk.called
+		vrt.Assert(len(trk.events) == round+1, "announce count wrong")
+		_ = a.Stats()
+		vrt.Cover(trk.replies[round].kind == 3, "announce aborted by another torrent")
+		vrt.Assert(a.Stats().Status == NotWorking, "announcer not in 'not working' state after a failed announce (no retry armed)")
+		vrt.Assert(vrt.TimerResets() == round+2, "no retry timer armed after a failed announce") // the creation counts as one
+		d := time.Duration(vrt.TimerReset(vrt.TimerResets() - 1))
+		vrt.Assert(d >= 2500*time.Millisecond && d <= 30*time.Minute, "retry not within the back-off bounds")
+		tc := vrt.TimerChan(0)
+		vrt.Assert(tc != nil, "no timer")
+		tc <- time.Time{}
+	}
+	<-trk.called // the fourth announce
 	a.Close()
 }
